@@ -766,6 +766,10 @@ func flagFuzz(c *core.Ctx) {
 		{[]string{"write", "parse"}, writeFlags, doc},
 		{[]string{"write", "conv"}, append([]string{"-c", "--command"}, writeFlags...), doc},
 		{[]string{"write", "play"}, []string{"-p", "--port", "--bpm", "--key"}, doc},
+		// the same flags on a document without instances: nothing to override, and nothing to index
+		{[]string{"write", "parse"}, writeFlags, []byte("[]\n")},
+		{[]string{"write", "conv", "-c", "cmt"}, writeFlags, []byte("# nothing yet\n")},
+		{[]string{"write"}, writeFlags, []byte("")},
 		{[]string{"text", "parse"}, []string{"-o", "--attr", "--chord"}, text},
 		{[]string{"text", "conv", "degree"}, []string{"-o"}, []byte("1[1] 5_7[1]")},
 		{[]string{"text", "conv", "syllable"}, []string{"--key", "-k", "-o"}, text},
@@ -867,13 +871,15 @@ func nonsenseCatalogue(c *core.Ctx) {
 		nonsense{name: "duration zero", text: []string{"C[0]", "1[0]", "C[1] R[0]", "C[0/4]", "C[1,0]"}, yaml: []string{"- chord: {degree: \"1\", name: \"\"}\n  values: [\"0\"]\n", "- values: [0]\n- chord: {degree: \"1\", name: \"\"}\n  values: [1]\n", "- chord: {degree: \"1\", name: \"\"}\n  values: [\"1\", \"0/3\"]\n"}},
 		nonsense{name: "zero denominator", text: []string{"C[1/0]", "R[3/0] C[1]", "1[1,2/0]"}, yaml: []string{"- chord: {degree: \"1\", name: \"\"}\n  values: [\"1/0\"]\n", "- values: [\"0/0\"]\n"}},
 		nonsense{name: "instance without durations", yaml: []string{"- chord: {degree: \"1\", name: \"\"}\n", "- chord: {degree: \"1\", name: \"\"}\n  values: []\n", "- chord: {degree: \"1\", name: \"\"}\n  values: null\n", chordY("- bpm: 120\n"), chordY("- {}\n")}},
-		nonsense{name: "tempo zero", text: []string{"C[1]{bpm=0}", "C[1] R[1]{bpm=0}", "1[1]{bpm=00}"}, yaml: []string{chordY("  bpm: 0\n"), chordY("- values: [1]\n  bpm: 0\n"), chordY("  bpm: \"0\"\n")}},
-		nonsense{name: "unknown dynamic", text: []string{"C[1]{vel=xx}", "C[1]{vel=fff}", "C[1]{vel=F}", "1[1] R[1]{vel=mpp}"}, yaml: []string{chordY("  velocity: xx\n"), chordY("  velocity: fff\n"), chordY("- values: [1]\n  velocity: \"\"\n"), chordY("  velocity: PP\n")}, flags: [][]string{{"--velocity", "xx"}, {"--velocity", "fff"}, {"--velocity", "F"}, {"--velocity=mpp"}}},
+		nonsense{name: "tempo zero", text: []string{"C[1]{bpm=0}", "C[1] R[1]{bpm=0}", "1[1]{bpm=00}", "C[1]{bpm=120,bpm=0}", "1[1] R[1]{bpm=90,txt=x,bpm=0}"}, yaml: []string{chordY("  bpm: 0\n"), chordY("- values: [1]\n  bpm: 0\n"), chordY("  bpm: \"0\"\n")}},
+		nonsense{name: "unknown dynamic", text: []string{"C[1]{vel=xx}", "C[1]{vel=fff}", "C[1]{vel=F}", "1[1] R[1]{vel=mpp}", "C[1]{vel=ff,vel=zzz}", "1[1]{vel=p,vel=}"}, yaml: []string{chordY("  velocity: xx\n"), chordY("  velocity: fff\n"), chordY("- values: [1]\n  velocity: \"\"\n"), chordY("  velocity: PP\n")}, flags: [][]string{{"--velocity", "xx"}, {"--velocity", "fff"}, {"--velocity", "F"}, {"--velocity=mpp"}}},
 		nonsense{name: "unknown chord symbol", text: []string{"Cfoo[1]", "C_77[1]", "1_nosuch[1]", "C[1] Dm7[1] Emin7[1]", "11[1] 1_1[1]", "1m/3[1] 1_m/3x[1]"}, yaml: []string{
 			// behind a valid chord that spells the same characters when degree, symbol and bass are run together
 			"- chord: {degree: \"11\", name: \"\"}\n  values: [1]\n- chord: {degree: \"1\", name: \"1\"}\n  values: [1]\n",
 			"- chord: {degree: \"1\", name: m, base: \"3\"}\n  values: [1]\n- chord: {degree: \"1\", name: \"m/3\"}\n  values: [1]\n",
-			"- chord: {degree: \"1\", name: \"7\"}\n  values: [1]\n- chord: {degree: \"17\", name: \"\"}\n  values: [1]\n- chord: {degree: \"1\", name: \"77\"}\n  values: [1]\n- chord: {degree: \"17\", name: \"7x\"}\n  values: [1]\n", "- chord: {degree: \"1\", name: \"foo\"}\n  values: [\"1\"]\n", "- chord: {degree: \"1\", name: \"M\"}\n  values: [\"1\"]\n", chordY("- chord: {degree: \"5\", name: \"minorseventh\"}\n  values: [1]\n")},
+			"- chord: {degree: \"1\", name: \"7\"}\n  values: [1]\n- chord: {degree: \"17\", name: \"\"}\n  values: [1]\n- chord: {degree: \"1\", name: \"77\"}\n  values: [1]\n- chord: {degree: \"17\", name: \"7x\"}\n  values: [1]\n", "- chord: {degree: \"1\", name: \"foo\"}\n  values: [\"1\"]\n",
+			// a symbol with the underscore of the chord text in front of it is not that symbol
+			"- chord: {degree: \"1\", name: \"_7\"}\n  values: [1]\n", "- chord: {degree: \"5\", name: \"_\"}\n  values: [1]\n", "- chord: {degree: \"2\", name: \"_m7\"}\n  values: [1]\n- chord: {degree: \"5\", name: \"7\"}\n  values: [1]\n", "- chord: {degree: \"1\", name: \"_DominantSeventh\"}\n  values: [1]\n", "- chord: {degree: \"1\", name: \" 7\"}\n  values: [1]\n", "- chord: {degree: \"1\", name: \"7 \"}\n  values: [1]\n", "- chord: {degree: \"1\", name: \"M\"}\n  values: [\"1\"]\n", chordY("- chord: {degree: \"5\", name: \"minorseventh\"}\n  values: [1]\n")},
 			cmds: [][]string{{"info", "chord", "describe", "-t", "Cfoo"}, {"info", "chord", "describe", "-t", "C_77"}, {"info", "attr", "describe", "-t", "Major99"}, {"info", "attr", "describe", "-t", ""}}},
 		nonsense{name: "unknown modifier command", cmds: [][]string{{"write", "conv", "-c", "xyz"}, {"write", "conv", "-c", "cmt,xyz"}, {"write", "conv", "-c", "CMT"}, {"write", "conv"}, {"write", "conv", "-c", ""}}},
 		nonsense{name: "mixed notation", text: []string{"C[1] 2[1]", "1[1] D[1]", "C/2[1]", "1/E[1]", "C[1] R[1] 5_7[1]"},
@@ -897,6 +903,9 @@ func nonsenseCatalogue(c *core.Ctx) {
 			keyItem.text = append(keyItem.text, "C[1]{key="+k+"}", "1[1] 2[1]{key="+k+"}")
 		}
 		keyItem.yaml = append(keyItem.yaml, chordY("  key: "+jq(k)+"\n"), chordY("- values: [1]\n  key: "+jq(k)+"\n"))
+		if !strings.ContainsAny(k, " ") {
+			keyItem.text = append(keyItem.text, "C[1]{key=C,key="+k+"}")
+		}
 		keyItem.flags = append(keyItem.flags, []string{"--key", k})
 		keyItem.cmds = append(keyItem.cmds, []string{"info", "key", "describe", "--key", k}, []string{"info", "key", "conv", "--key", k, "-c", "d"}, []string{"text", "conv", "syllable", "--key", k})
 	}
